@@ -279,7 +279,7 @@ Section Model.
 
   Definition fmt_caller (v : cval) : bytes :=
     match v with
-    | CStr (_ :: _ as c) => (match o_rel O c with Some r => r | None => c end) ++ bs " >"
+    | CStr ((_ :: _) as c) => (match o_rel O c with Some r => r | None => c end) ++ bs " >"
     | _ => []
     end.
 
